@@ -67,6 +67,7 @@ package pos
 //@ func (*WeightCounter).CountByIdx
 //@   requires cinv(s) && 0 <= validatorIdx && validatorIdx < len(s.already)
 //@   modifies s.sum, s.already[validatorIdx]
+//@   ensures  s.already[validatorIdx]
 //@   ensures  old(s.already[validatorIdx]) ==> !result && s.sum == old(s.sum)
 //@   ensures  !old(s.already[validatorIdx]) ==> result && s.already[validatorIdx] && s.sum == old(s.sum) + s.validators.cache.weights[validatorIdx]
 //@   ensures  cinv(s)
@@ -154,16 +155,17 @@ package pos
 //@
 //@ func newWeightCounter
 //@   requires valid(vv)
-//@   ensures  fresh(result) && cinv(result) && result.sum == 0
+//@   ensures  fresh(result) && cinv(result) && result.sum == 0 && result.validators == vv && fresh(result.already)
 //@   ensures  forall(i, 0, len(result.already), !result.already[i])
 //@   hint use wsum_zero(result.already, result.validators.cache.weights, len(result.already))
 //@ func (Validators).NewCounter
 //@   requires valid(vv)
-//@   ensures  fresh(result) && cinv(result) && result.sum == 0
+//@   ensures  fresh(result) && cinv(result) && result.sum == 0 && result.validators == vv && fresh(result.already)
 //@   ensures  forall(i, 0, len(result.already), !result.already[i])
 //@ func (*WeightCounter).Count
 //@   requires cinv(s) && len(s.already) >= 1
 //@   modifies s.sum, s.already[s.validators.cache.indexes[v]]
 //@   ensures  old(s.already[s.validators.cache.indexes[v]]) ==> !result && s.sum == old(s.sum)
 //@   ensures  !old(s.already[s.validators.cache.indexes[v]]) ==> result && s.sum == old(s.sum) + s.validators.cache.weights[s.validators.cache.indexes[v]]
+//@   ensures  s.already[s.validators.cache.indexes[v]]
 //@   ensures  cinv(s)
